@@ -38,7 +38,8 @@ SAFETY = "SameIdentity IdentityStable"
 # round that is due; the same with a KILL refused while other leftovers keep the core talking; the same with an environment
 # deployed by the new life between the lost KILL and the reconnection; a deployment completed while a teardown was held
 # at its KILL calls, then a reconnection
-PROBES = ["ProbeLostKill", "ProbeRefusedKill", "ProbeLostKillDeployed", "ProbeDeployDuringAnswer", "ProbeOverlap"]
+PROBES = ["ProbeLostKill", "ProbeRefusedKill", "ProbeLostKillDeployed", "ProbeDeployDuringAnswer", "ProbeOverlap",
+          "ProbeErrorEvent", "ProbeErrorEventLater", "ProbeCleanupNamed"]
 WORKERS = max(4, vlib.NCPU // 2)
 
 
@@ -91,7 +92,10 @@ def norm(beh):
     for (a, args, st) in beh:
         if a.startswith("G_"):
             a = a[2:]
-        out.append({"act": a, "arg": (args[0].strip().strip('"') if args else None), "st": st})
+        how = ""
+        if a == "StreamError":
+            a, how = "DropConnection", "error"   # for the driver a disconnection like the others, brought about by an ERROR event
+        out.append({"act": a, "arg": (args[0].strip().strip('"') if args else None), "st": st, "how": how})
     return out
 
 
@@ -487,7 +491,7 @@ class Conv:
                     if i in arm_dda_at:
                         self.arm("RECONCILE")
                         self.arm("REVIVE")
-                    self.emit(do="dropstream")
+                    self.emit(do="c18_errorevent" if a.get("how") == "error" else "dropstream")
                     if i in lostans:
                         self.release("RECONCILE")   # answered into the void
             elif act == "CoreStart":
@@ -512,6 +516,11 @@ class Conv:
                     if not self.down:
                         self.flush(prev)
                     self.op_release(i, "LAUNCH")
+            elif act == "CleanupNamed":
+                self.flush(prev)
+                self.emit(do="c18_cleanupids", env=e)
+                self.emit(do="settle", ms=60)
+                self.emit(do="snapshot")
             elif act in ("KillLost", "KillRefused"):
                 if i not in lost_at:
                     raise Undrivable("a lost KILL nobody armed")
@@ -664,7 +673,14 @@ def fault_points(acts):
                     break
                 if acts[k]["act"] == "NewEnv" and tset(acts[k - 1]["st"]["rq"]):
                     held = True
-            flags = lostflag + ("+overlap" if overlap else "") + (">answerheld" if held else "")
+            named = False   # a cleanup request has named the tasks of a live environment earlier in this life
+            for k in range(i - 1, -1, -1):
+                if acts[k]["act"] == "Crash":
+                    break
+                if acts[k]["act"] == "CleanupNamed":
+                    named = True
+            flags = (lostflag + ("+overlap" if overlap else "") + (">answerheld" if held else "")
+                     + ("!errorevent" if a.get("how") == "error" else "") + ("+cleanupnamed" if named else ""))
             overlap = False
             pts.append({"fault": "crash" if crash else "drop", "class": cls, "transient": ph, "tasks": ("/".join(stg) or "-") + flags,
                         "midreconcile": bool(tset(prev["rcv"]) or tset(prev["rq"]) or tset(prev.get("kq"))), "alive": alive,
@@ -812,7 +828,7 @@ def project(lines):
             out.append({"ev": ev, "scn": scn, "task": g("task")})
         elif ev == "MSubscribe":
             out.append({"ev": ev, "scn": scn, "fid": fidnum(g("fid")), "assigned": fidnum(g("assigned"))})
-        elif ev in ("MReconcile", "MStreamDropped", "CoreKilled"):
+        elif ev in ("MReconcile", "MStreamDropped", "MErrorEvent", "CoreKilled"):
             out.append({"ev": ev, "scn": scn})
         elif ev == "MGateReached":
             out.append({"ev": ev, "scn": scn, "point": g("point"), "task": g("task")})
